@@ -52,6 +52,7 @@ func init() {
 		Trusted:     []string{"go/types", "golang.org/x/tools/go/ssa v0.29.0"},
 		Rules: func(c *Ctx) {
 			ruleC15ScanFilter(c)
+			ruleProtocol(c, "C15.PROTOCOL")
 			ruleChildUpdateHandled(c, "C15.CHILDUPDATE")
 			ruleNeverNilCtor(c, "C15.NEWBUCKET")
 			ruleEntityBucketDescent(c, "C15.ENTITYBUCKET")
